@@ -365,6 +365,46 @@ def main():
                 break
         if res["param_history"]:
             break
+    # (h) a command that was DISCARDED is gone: a later command with a data-in buffer of the same size gets its own zero-filled buffer, and a
+    # buffer the caller kept from the discarded command is not handed out again (sizes up to those of large reads)
+    import gc
+    res["recycled"] = None
+    try:
+        from pyscsi.pyscsi.scsi_cdb_report_luns import ReportLuns
+        from pyscsi.pyscsi.scsi_cdb_getlbastatus import GetLBAStatus
+        from pyscsi.pyscsi.scsi_cdb_read16 import Read16
+        from pyscsi.pyscsi.scsi_enum_command import sbc as _sbc
+        for size in (96, 4096, 65536, 131072, 1 << 20):
+            first = ReportLuns(_sbc.REPORT_LUNS, alloclen=size)
+            kept = first.datain
+            for i in range(0, len(kept), 97):
+                kept[i] = 0xA5                      # what the device wrote for the first command
+            snap = bytes(kept)
+            del first
+            gc.collect()
+            for mk2, label in ((lambda: GetLBAStatus(_sbc.SBC_OPCODE_9E, 0, alloclen=size), "GET LBA STATUS"),
+                               (lambda: ReportLuns(_sbc.REPORT_LUNS, alloclen=size), "REPORT LUNS"),
+                               (lambda: Read16(_sbc.READ_16, 512, 0, size // 512) if size >= 512 else None, "READ(16)")):
+                second = mk2()
+                if second is None or second.datain is None or len(second.datain) != size:
+                    continue
+                if second.datain is kept:
+                    res["recycled"] = "a %s command with a %d-byte data-in buffer was handed the very buffer a discarded REPORT LUNS command had (the caller still holds it)" % (label, size)
+                elif any(second.datain):
+                    res["recycled"] = "a new %s command's %d-byte data-in buffer is not zero-filled: it holds what a discarded command received" % (label, size)
+                for i in range(0, len(second.datain), 89):
+                    second.datain[i] = 0x5A
+                if bytes(kept) != snap and not res["recycled"]:
+                    res["recycled"] = "writing into a new %s command's data-in buffer (%d bytes) changed the buffer kept from a discarded command" % (label, size)
+                del second
+                gc.collect()
+                if res["recycled"]:
+                    break
+            if res["recycled"]:
+                break
+    except Exception as e:  # noqa
+        res["recycled"] = None
+        res["recycled_error"] = "%s: %s" % (type(e).__name__, e)
     # (f) first use: two threads using one command class for the first time in the process (modules imported afresh for every schedule)
     res["cold"] = []
     for pair in inp.get("cold_pairs", []):
